@@ -199,12 +199,11 @@ def seeded_for(prop):
 def run_seeded(prop, verbose=False):
     """Seeded breaking changes written by independent authors (seeded/<id>/patch.diff).  Those
     whose meta.json says the static rules decide them (`caught_by`) must be reported."""
-    out = []
-    for d, meta in seeded_for(prop):
+    def one(dm):
+        d, meta = dm
         exp = meta.get("caught_by") or []
         if not exp:
-            out.append({"patch": "seeded/" + os.path.basename(d), "status": "outside-static-reach", "kind": "seeded", "expected": []})
-            continue
+            return {"patch": "seeded/" + os.path.basename(d), "status": "outside-static-reach", "kind": "seeded", "expected": []}
         # patch.diff is the author's patch against the commit it was written for; when a later fix: commit
         # touches the same lines, patch.rebased.diff carries the same change on top of the current tree
         pf = os.path.join(d, "patch.rebased.diff")
@@ -212,8 +211,8 @@ def run_seeded(prop, verbose=False):
             pf = os.path.join(d, "patch.diff")
         r = run_patch(prop, pf, verbose, expect=exp, label="seeded/" + os.path.basename(d))
         r["kind"] = "seeded"
-        out.append(r)
-    return out
+        return r
+    return _pmap(one, seeded_for(prop))
 
 
 if __name__ == "__main__":
